@@ -41,15 +41,122 @@ type schema struct {
 	st   *State // when set: the state the fact speaks about (loop head snapshot)
 }
 
+// hasExists: the clause starts with "exists k int ::" (never mixed with forall).
+func hasExists(cl *Clause) bool {
+	for _, v := range cl.vars {
+		if v.ex {
+			return true
+		}
+	}
+	return false
+}
+
+// assumeClause evaluates a clause that is a hypothesis. An existential is
+// skolemised: its witness becomes a ghost variable, bound through bind so that
+// later clauses of the same frame can name it (and offer it as a candidate).
+func (x *Exec) assumeClause(st *State, env *Env, cl *Clause, bind func(string, Value)) *Term {
+	if !hasExists(cl) {
+		return x.evalBool(st, env, cl.expr)
+	}
+	e2 := env.child()
+	for _, v := range cl.vars {
+		if !v.ex {
+			fail("exists and forall cannot be mixed in one clause: %s", cl.text)
+		}
+		w := freshVar("wit$"+v.name, SInt)
+		e2.vars[v.name] = w
+		if bind != nil {
+			bind(v.name, w)
+		}
+	}
+	return x.evalBool(st, e2, cl.expr)
+}
+
+// existsCandidates: integer terms in scope that may serve as a witness.
+func (x *Exec) existsCandidates(env *Env) []*Term {
+	seen := map[int]bool{}
+	var out []*Term
+	add := func(v Value) {
+		if t, ok := v.(*Term); ok && t.sort == SInt && !seen[t.id] {
+			seen[t.id] = true
+			out = append(out, t)
+		}
+	}
+	for c := env; c != nil; c = c.parent {
+		var names []string
+		for n := range c.vars {
+			names = append(names, n)
+		}
+		sort.Strings(names)
+		for _, n := range names {
+			add(c.vars[n])
+		}
+		if c.frame != nil {
+			names = names[:0]
+			for n := range c.frame.env {
+				names = append(names, n)
+			}
+			sort.Strings(names)
+			for _, n := range names {
+				if ee := c.frame.env[n]; !ee.addr {
+					add(ee.v)
+				}
+			}
+		}
+	}
+	add(mkInt(0))
+	if len(out) > 12 {
+		out = out[:12]
+	}
+	return out
+}
+
 func (x *Exec) evalClause(st *State, env *Env, cl *Clause) *Term {
 	if len(cl.vars) == 0 {
 		return x.evalBool(st, env, cl.expr)
+	}
+	if hasExists(cl) {
+		// existential goal: some integer in scope is a witness
+		cands := x.existsCandidates(env)
+		var evs []qvar
+		for _, v := range cl.vars {
+			if !v.ex {
+				fail("exists and forall cannot be mixed in one clause: %s", cl.text)
+			}
+			evs = append(evs, v)
+		}
+		if len(evs) > 2 {
+			fail("at most two existential variables per clause")
+		}
+		var alts []*Term
+		var rec func(i int, e2 *Env)
+		rec = func(i int, e2 *Env) {
+			if i == len(evs) {
+				alts = append(alts, x.evalBool(st, e2, cl.expr))
+				return
+			}
+			for _, c := range cands {
+				e3 := e2.child()
+				e3.vars[evs[i].name] = c
+				rec(i+1, e3)
+			}
+		}
+		rec(0, env)
+		return mkOr(alts...)
 	}
 	// quantified goal: skolemize with fresh symbolic values
 	e2 := env.child()
 	x.curSkolems = map[string]Value{}
 	for _, v := range cl.vars {
-		e2.vars[v.name] = x.symValue(st, x.resolveType(env.pkg, v.typ), "sk$"+v.name)
+		vt := x.resolveType(env.pkg, v.typ)
+		if pt, ok := vt.Underlying().(*types.Pointer); ok && !foreignType(pt.Elem()) {
+			// an arbitrary (possibly nil) object of the type's region
+			id := freshVar("sk$"+v.name+"$id", SInt)
+			st.axiom(mkLe(mkInt(0), id))
+			e2.vars[v.name] = &Ptr{cell: x.regionCell(pt.Elem()), sym: id, mayNil: true}
+		} else {
+			e2.vars[v.name] = x.symValue(st, vt, "sk$"+v.name)
+		}
 		x.curSkolems[v.name] = e2.vars[v.name]
 	}
 	return x.evalBool(st, e2, cl.expr)
@@ -193,7 +300,8 @@ func (x *Exec) instantiate(st *State) []*Term {
 				key := sc.text
 				for i := range idx {
 					var fl []*Term
-					flatten(cands[i][idx[i]], &fl)
+					uh := false
+					x.flattenIdentity(cands[i][idx[i]], &fl, &uh)
 					key += "|"
 					for _, t := range fl {
 						key += fmt.Sprintf("%d,", t.id)
@@ -283,9 +391,29 @@ func (x *Exec) candidates(st *State, apps []appRec, t types.Type) []Value {
 		}
 		return out
 	}
-	if _, ok := sortOf(t); ok {
+	if pt, ok := t.Underlying().(*types.Pointer); ok && !foreignType(pt.Elem()) {
+		// objects of the type's region whose fields have been read
+		rc := x.regionCell(pt.Elem())
+		prefix := "sel_heap_" + sanitize(types.TypeString(pt.Elem(), nil)) + "."
+		for _, a := range apps {
+			if !strings.HasPrefix(a.fn, prefix) || len(a.args) < 1 {
+				continue
+			}
+			k := fmt.Sprintf("%d", a.args[0].id)
+			if !seen[k] {
+				seen[k] = true
+				out = append(out, &Ptr{cell: rc, sym: a.args[0], mayNil: true})
+			}
+		}
+		return out
+	}
+	if vs, ok := sortOf(t); ok {
 		for _, a := range apps {
 			if strings.HasPrefix(a.fn, "Ev_") || a.fn == "evalpt" || strings.HasPrefix(a.fn, "sqrt") || len(a.args) != 1 {
+				continue
+			}
+			if strings.HasPrefix(a.fn, "sel_heap_") || a.args[0].sort != vs {
+				// object identities are not indices; a variable ranges over terms of its own sort
 				continue
 			}
 			k := fmt.Sprintf("%d", a.args[0].id)
@@ -359,15 +487,55 @@ func (x *Exec) applyContract(st *State, fn *ssa.Function, cts []*Contract, args 
 	vals := make([]Value, res.Len())
 	var flatArgs []*Term
 	pure := true
+	readsOnly := false
+	for _, ct := range cts {
+		if ct.pure {
+			readsOnly = true
+		}
+	}
+	usedPtr := false
 	for _, a := range args {
+		if p, ok := a.(*Ptr); ok && readsOnly {
+			// a function that only reads: its result is determined by the identity of the
+			// object it is given and the contents of the shared heap (the epoch)
+			usedPtr = true
+			if p.cell == nil {
+				flatArgs = append(flatArgs, mkInt(0), mkInt(0))
+				continue
+			}
+			flatArgs = append(flatArgs, mkInt(int64(p.cell.id)))
+			for _, k := range p.path {
+				flatArgs = append(flatArgs, mkInt(int64(k)))
+			}
+			if p.sym != nil {
+				flatArgs = append(flatArgs, p.sym)
+			} else {
+				flatArgs = append(flatArgs, mkInt(-1))
+			}
+			continue
+		}
 		if !flatten(a, &flatArgs) {
 			pure = false
 		}
+	}
+	if usedPtr {
+		flatArgs = append(flatArgs, mkInt(int64(x.heapEpoch(st))))
 	}
 	for i := 0; i < res.Len(); i++ {
 		if pure && !isErrorType(res.At(i).Type()) && ufSupported(res.At(i).Type()) {
 			// pure function of scalar arguments: equal arguments give equal results
 			vals[i] = x.ufResult(st, fmt.Sprintf("ret_%s#%d", sanitize(fn.Name()), i), res.At(i).Type(), flatArgs)
+		} else if pt, ok := res.At(i).Type().Underlying().(*types.Pointer); ok && !foreignType(pt.Elem()) && regionable(pt.Elem()) {
+			// a pointer result: some object of the type's region, or nil (identity 0); which one is
+			// a function of the arguments when the callee only reads
+			var id *Term
+			if pure {
+				id = x.ufApp(st, fmt.Sprintf("ret_%s#%d$id", sanitize(fn.Name()), i), SInt, flatArgs)
+			} else {
+				id = freshVar("ret$"+fn.Name()+"$id", SInt)
+			}
+			st.axiom(mkLe(mkInt(0), id))
+			vals[i] = &Ptr{cell: x.regionCell(pt.Elem()), sym: id, mayNil: true}
 		} else {
 			vals[i] = x.havocResult(st, res.At(i).Type(), "ret$"+fn.Name())
 		}
@@ -380,7 +548,28 @@ func (x *Exec) applyContract(st *State, fn *ssa.Function, cts []*Contract, args 
 		}
 		env.old = pre
 		env.oldEnv = &Env{vars: env.vars, pkg: env.pkg}
+		// contract-level "forall v T": clauses mentioning v are not call preconditions; they
+		// qualify the postconditions that mention v (forall v :: requires(v) ==> ensures(v))
+		fa := map[string]bool{}
+		for _, q := range ct.foralls {
+			fa[q.name] = true
+		}
+		inSpec := x.specMode > 0
+		var qreq Expr
 		for _, cl := range ct.requires {
+			if len(fa) > 0 && mentionsIdent(cl.expr, fa) {
+				if qreq == nil {
+					qreq = cl.expr
+				} else {
+					qreq = &EBin{op: "&&", l: qreq, r: cl.expr}
+				}
+				continue
+			}
+			if inSpec {
+				// a call inside a specification expression: the function is used as a total
+				// mathematical function and its contract is known only where the precondition holds
+				continue
+			}
 			// quantified preconditions are proved for an arbitrary (skolem) instance
 			x.specMode++
 			t := x.evalClause(st, env, cl)
@@ -389,21 +578,68 @@ func (x *Exec) applyContract(st *State, fn *ssa.Function, cts []*Contract, args 
 		}
 		// frame of the summarised callee: the listed locations get arbitrary new contents
 		for _, he := range ct.havocs {
+			if inSpec {
+				fail("%s modifies memory and cannot be called in a specification expression", ct.label())
+			}
 			x.havocLocation(st, env, he, fn.Name())
 		}
 		bindResults(env, fn, vals)
+		// lets of the contract that can be evaluated from the caller's side are made available
+		unavailable := map[string]bool{}
+		for _, sst := range ct.script {
+			if sst.kind != "let" {
+				continue
+			}
+			if mentionsIdent(sst.let.expr, fa) || mentionsIdent(sst.let.expr, unavailable) || mentionsEvents(sst.let.expr) {
+				unavailable[sst.let.name] = true
+				continue
+			}
+			func() {
+				defer func() {
+					if r := recover(); r != nil {
+						if _, ok := r.(engineErr); !ok {
+							panic(r)
+						}
+						unavailable[sst.let.name] = true
+					}
+				}()
+				x.specMode++
+				defer func() { x.specMode-- }()
+				env.vars[sst.let.name] = x.eval(st, env, sst.let.expr)
+			}()
+		}
 		for _, cl := range ct.ensures {
+			if len(unavailable) > 0 && mentionsIdent(cl.expr, unavailable) {
+				continue
+			}
+			if inSpec {
+				// inside a specification expression the call only names the function's value;
+				// what the contract says about it is learnt at real call sites or by "use"
+				continue
+			}
 			if mentionsEvents(cl.expr) {
 				// postconditions about the callee's own events / proof-script lets describe its body, not a fact the caller can use
 				continue
 			}
-			if len(cl.vars) > 0 {
+			if len(fa) > 0 && mentionsIdent(cl.expr, fa) {
+				if len(cl.vars) > 0 {
+					continue
+				}
+				ex := cl.expr
+				if qreq != nil {
+					ex = &EBin{op: "==>", l: qreq, r: ex}
+				}
+				x.schemaCtr++
+				st.schemas = append(st.schemas, &schema{vars: ct.foralls, expr: ex, env: env, text: fmt.Sprintf("%s@%d:%s", ct.label(), x.schemaCtr, cl.text)})
+				continue
+			}
+			if len(cl.vars) > 0 && !hasExists(cl) {
 				// quantified postcondition: becomes an instantiable schema for the caller
 				x.schemaCtr++
 				st.schemas = append(st.schemas, &schema{vars: cl.vars, expr: cl.expr, env: env, text: fmt.Sprintf("%s@%d:%s", ct.label(), x.schemaCtr, cl.text)})
 				continue
 			}
-			st.assume(x.evalBool(st, env, cl.expr))
+			st.assume(x.assumeClause(st, env, cl, func(n string, v Value) { env.vars[n] = v }))
 		}
 		if ct.trusted != "" {
 			x.note("trusted contract " + ct.label() + ": " + ct.trusted)
@@ -422,9 +658,48 @@ func (x *Exec) applyContract(st *State, fn *ssa.Function, cts []*Contract, args 
 			}
 		}
 	}
-	st.log = append(st.log, Event{kind: "call:" + fn.Name(), args: snap, res: vals})
+	if x.specMode > 0 {
+		return []Out{{st: st, vals: vals}}
+	}
+	st.log = append(st.log, Event{kind: "call:" + qualifiedName(fn), args: snap, res: vals})
 	st.version++
 	return []Out{{st: st, vals: vals}}
+}
+
+// heapEpoch counts the writes so far to memory that existed when the function
+// under contract was entered (parameters' targets, globals, object regions):
+// two reads-only calls with the same epoch saw the same shared heap.
+func (x *Exec) heapEpoch(st *State) int {
+	n := 0
+	for _, id := range st.wlog {
+		if id <= x.entryMark || x.regionIDs[id] {
+			n++
+		}
+	}
+	return n
+}
+
+// regionable: objects of struct or array type can live in a symbolic region.
+func regionable(t types.Type) bool {
+	switch t.Underlying().(type) {
+	case *types.Struct, *types.Array:
+		return true
+	}
+	return false
+}
+
+// qualifiedName: "Type.method" for methods, the plain name otherwise.
+func qualifiedName(fn *ssa.Function) string {
+	if recv := fn.Signature.Recv(); recv != nil {
+		t := recv.Type()
+		if pt, ok := t.(*types.Pointer); ok {
+			t = pt.Elem()
+		}
+		if nt, ok := t.(*types.Named); ok {
+			return nt.Obj().Name() + "." + fn.Name()
+		}
+	}
+	return fn.Name()
 }
 
 func bindResults(env *Env, fn *ssa.Function, vals []Value) {
@@ -542,11 +817,11 @@ func (x *Exec) verifyContract(ct *Contract) (err error) {
 		env.vars[l.name] = x.eval(st, env, l.expr)
 	}
 	for _, cl := range ct.requires {
-		if len(cl.vars) > 0 {
+		if len(cl.vars) > 0 && !hasExists(cl) {
 			x.schemas = append(x.schemas, &schema{vars: cl.vars, expr: cl.expr, env: env, text: cl.text})
 			continue
 		}
-		st.assume(x.evalBool(st, env, cl.expr))
+		st.assume(x.assumeClause(st, env, cl, func(n string, v Value) { env.vars[n] = v }))
 	}
 	x.specMode--
 	// vacuity probe: preconditions must be satisfiable
@@ -555,6 +830,7 @@ func (x *Exec) verifyContract(ct *Contract) (err error) {
 
 	entry := st.fork()
 	x.entryState = entry
+	x.entryMark = cellCtr
 	// quantified preconditions speak about the entry state, whatever the heap looks like later
 	for _, sc := range x.schemas {
 		sc.st = entry
@@ -1163,6 +1439,38 @@ func ufSupported(t types.Type) bool {
 		return true
 	case *types.Array:
 		return ufSupported(u.Elem())
+	}
+	return false
+}
+
+// mentionsIdent: does the expression use one of the names as a free identifier?
+func mentionsIdent(e Expr, names map[string]bool) bool {
+	switch n := e.(type) {
+	case *EIdent:
+		return names[n.name]
+	case *ESel:
+		return mentionsIdent(n.x, names)
+	case *ECall:
+		if mentionsIdent(n.fun, names) {
+			return true
+		}
+		for _, a := range n.args {
+			if mentionsIdent(a, names) {
+				return true
+			}
+		}
+	case *EIndex:
+		return mentionsIdent(n.x, names) || mentionsIdent(n.i, names)
+	case *EUn:
+		return mentionsIdent(n.x, names)
+	case *EBin:
+		return mentionsIdent(n.l, names) || mentionsIdent(n.r, names)
+	case *EComp:
+		for _, a := range n.elems {
+			if mentionsIdent(a, names) {
+				return true
+			}
+		}
 	}
 	return false
 }
